@@ -197,6 +197,16 @@ def _optional_params_helper(ctx: Ctx, hf: loader.Func):
         f = _render_form(ctx, hf, dec_val) if dec_val is not None else (False, "no Decimal branch: the raw Decimal is put in the map")
         if form is None or not f[0]:
             form = f
+    # the value that reaches the Decimal branch is the caller's value: it is not rewritten before the branch decides how to render it
+    dec_tests = [n_ for n_ in C.walk_shallow(hf.node) if is_dec_test(n_)]
+    if dec_tests:
+        first_dec = min(A.seq(t_) for t_ in dec_tests)
+        pre = [s2 for s2 in A.stores(hf) if isinstance(s2.target, ast.Name) and s2.target.id == vvar and isinstance(s2.node, (ast.Assign, ast.AugAssign, ast.AnnAssign))
+               and A.seq(s2.stmt) < first_dec and any(A.is_within(s2.stmt, b) for b in loop[0].body)]
+        if pre and (form is None or form[0]):
+            form = (False, f"'{ast.unparse(pre[0].stmt)[:60]}' rewrites the value before the Decimal branch: a Decimal can be replaced by something else "
+                           "(e.g. a table lookup by equality maps Decimal('1') to the entry for True) and is then not rendered as a number")
+            where = pre[0].stmt
     g = ctx.cfg(hf)
 
     def none_edge(n, lab) -> bool:
